@@ -7,6 +7,7 @@ package main
 
 import (
 	"bufio"
+	"runtime/pprof"
 	"crypto/sha256"
 	"encoding/json"
 	"flag"
@@ -298,6 +299,9 @@ func runPath(pr *program, cfg *config, solver *Solver, item workItem, seen *inte
 	res.Unknown += solver.nUnknown - s0unk
 	res.SolverNs = solver.timeNs - s0ns
 	res.Instrs = i.instrs
+	if os.Getenv("GOSMT_TIMING") != "" {
+		fmt.Fprintf(os.Stderr, "path: status=%s decisions=%d instrs=%d solver=%.2fs queries=%d\n", res.Status, res.Decisions, i.instrs, float64(res.SolverNs)/1e9, res.Sat+res.Unsat)
+	}
 	res.Funcs = i.funcsNew
 	res.Stubs = i.stubsNew
 	return res
@@ -306,6 +310,11 @@ func runPath(pr *program, cfg *config, solver *Solver, item workItem, seen *inte
 // ------------------------------------------------------------------ worker
 
 func worker(cfg *config) {
+	if pf := os.Getenv("GOSMT_PROF"); pf != "" {
+		f, _ := os.Create(pf)
+		pprof.StartCPUProfile(f)
+		defer pprof.StopCPUProfile()
+	}
 	pr := loadProgram(cfg)
 	solver := NewSolver(cfg.solver, cfg.timeoutMs)
 	if cfg.smtlog != "" {
